@@ -17,7 +17,7 @@ CHECKS = {
    "Every entry on every copy must be a ledger entry of its owner with exactly that key/value/version/status; no copy max version or recorded heartbeat above the owner's; no member that nobody ever was.",
    "values compared by 64-bit hash + length", "DESIGN.md §5 C03"),
  "C04": ("E1", "exploration", "runtime monitoring: before/after frontier and version monitors on every step, panic capture",
-   "Version allocation of every local write, lexicographic (watermark, max version) monotonicity and per-key version monotonicity of every copy across every step, and absence of panics when processing honest messages, over seeded hostile traces; plus (when built) the small-scope (copy, delta) enumeration E2.",
+   "Version allocation of every local write, lexicographic (watermark, max version) monotonicity and per-key version monotonicity of every copy across every step, and absence of panics when processing honest messages, over seeded hostile traces; plus the small-scope (copy, delta) enumeration E2 (every copy with watermark / max version in 0..6 x every delta with watermark, start in 0..6 and up to 3 ascending key-values or a max-version tail, honest or not) and the external catch-up entry point (E9 matrix and interleaved cases) judged for frontier monotonicity.",
    "copies removed after the dead-node grace end their lifetime", "DESIGN.md §5 C04"),
  "C05": ("E1", "exploration", "runtime monitoring: snapshot of the node's own namespace before/after every processed message",
    "The processing node's own key-values, versions, watermark and max version must be unchanged by every message and its heartbeat must rise by exactly one; no copy is ever ahead of its owner.",
@@ -26,13 +26,13 @@ CHECKS = {
    "Classification invariants after every step and evaluation, mention rule on every emitted digest/delta parsed with the independent decoder, removal exactly at the grace period, re-creation only by a strictly higher heartbeat, over membership-focused traces with clock advances at 1/2 and 1 x grace -/+ 1 ms.",
    "grace periods are whole even seconds so that grace/2 is exact; < 500 removed members", "DESIGN.md §5 C12"),
  "C13": ("E1", "exploration", "runtime monitoring: watch-channel value and has_changed checked after every liveness evaluation",
-   "After every evaluation the channel value must list exactly the live members satisfying the predicate with their current max versions, and a change of the live set / a live member's max version must have produced a publication.",
+   "After every evaluation the channel value must list exactly the live members satisfying the predicate with their current max versions, and a change of the live set / a live member's max version (in either direction: a reset can lower it) must have produced a publication; one-way SYN steps keep members live while their data lags.",
    "predicate = READY == \"true\" in half of the traces", "DESIGN.md §5 C13"),
  "C16": ("E1", "exploration", "runtime monitoring: two-cluster simulation with full before/after snapshots around every foreign SYN",
    "Two clusters with confusable ids share one message fabric and addresses; every foreign SYN must be answered by BadCluster and change nothing but the receiver's own heartbeat; member sets stay disjoint after every step.",
    "clusters of 1-3 nodes", "DESIGN.md §5 C16"),
  "C20": ("E1", "exploration", "runtime monitoring: catch-up callback counter vs. resets observed from frontiers, per processed message",
-   "For every processed message the number of callback invocations must be 1 if some copy's watermark strictly rose (a reset, including copies created by the same message) and 0 otherwise; plus (when built) every pair of the C14 scope.",
+   "For every processed message the number of callback invocations must be 1 if some copy's watermark strictly rose (a reset, including copies created by the same message) and 0 otherwise, where a reset is observed as a rebuild (watermark became that of a from-0 node delta and no old entry survived unless the delta carries it); plus every delivery of the C14 and C04 small scopes.",
    "a reset is observed as a strict rise of a copy's watermark during process_message", "DESIGN.md §5 C20"),
 }
 
@@ -55,19 +55,19 @@ CHECKS.update({
    "(a) messages emitted by real nodes driven into states covering the quantifier: announced length == bytes written, real re-decode == original with nothing left, independent decode == the node's own view, content == sender state; (b) independently encoded messages (all string length classes, raw / compressed / tiny / 65,535-byte / randomly cut blocks, digests to 2,000 entries) decoded by the real decoder and compared; (c) every datagram of every E1 trace goes through the same comparisons.",
    "strings <= 65,535 bytes, <= 65,535 digest entries", "DESIGN.md §5 C08"),
  "C09": ("E5", "exploration", "runtime monitoring: generative hostile input with panic capture and invariant monitors after every datagram",
-   "Nodes taken from seeded E1 traces receive sequences of up to 20 datagrams: random bytes, mutated / replayed valid datagrams, structure-aware op streams in arbitrary order with extreme values; decode and processing run under panic capture, then frontier monotonicity and live/dead classification invariants are checked; thorough adds a valgrind memcheck pass over the same workload.",
+   "Nodes taken from seeded E1 traces receive sequences of up to 20 datagrams: random bytes, mutated / replayed valid datagrams, structure-aware op streams in arbitrary order with extreme values; decode and processing run under panic capture, then frontier monotonicity and live/dead classification invariants are checked; thorough adds a valgrind memcheck pass over the same workload, a libFuzzer + ASan run (240 s, 8 forks, corpus seeded from real traces) and a Miri pass over hostile SYNs.",
    "a hostile sequence introduces at most 40 new short member ids (the property's digest-size assumption)", "DESIGN.md §5 C09"),
  "C10": ("E6", "exploration", "runtime monitoring: harness-side evidence log vs. live/dead verdicts under the virtual clock",
    "A real node receives crafted digests with chosen heartbeat values at chosen virtual instants; at every evaluation the completeness deadline phi x max(max_interval, initial_interval) since the last fresh value and the two-usable-observations rule are asserted; dyadic exact-boundary witnesses check the deadline with no margin (+1 ns).",
    "claims asserted with a 1e-9 relative margin outside the boundary", "DESIGN.md §5 C10"),
  "C11": ("E6", "exploration", "runtime monitoring: twin-node oracle (fresh values only) and accuracy claims from a shadow of the heartbeat gaps",
-   "A twin node receives the same history with every non-fresh value removed: live/dead/scheduled sets and stored heartbeats must be identical after every evaluation; steady histories must stay live whenever the statement's premise holds (shadow gaps are a superset of the real window); exact-boundary witness at threshold 1; E1 additionally asserts that no member is live before two strictly increasing values.",
+   "A twin node receives the same history with every non-fresh value removed: live/dead/scheduled sets and stored heartbeats must be identical after every evaluation; steady histories must stay live whenever the statement's premise holds (shadow gaps are a superset of the real window); exact-boundary witness at threshold 1; a third of the histories use a short dead-node grace (scheduling, removal, re-creation) and a quarter interleave external catch-up calls; E1 traces (relays, deltas, resets, restarts) additionally assert that no member is live before two strictly increasing values were delivered since its copy was created.",
    "heartbeats reach the node through SYN digests (E6) and through whole simulated clusters (E1)", "DESIGN.md §5 C11"),
  "C14": ("E2", "exploration", "runtime monitoring: exhaustive small-scope enumeration fed to real nodes, verdict on the observed handshake",
    "All 4,096 (sender watermark, sender max version, receiver watermark, receiver max version) combinations in 0..7 x entry layouts: both copies are installed in real nodes, the receiver's real SYN is answered by the real sender, the answer and every distinct truncation of it are processed by fresh copies of the receiver; start version, reset decision, strict advance, content after a wipe and callback count are asserted; plus the monitored handshakes of seeded E1 traces.",
    "copies installed through real message processing; exhaustive refers to the frontier cross product", "DESIGN.md §5 C14"),
  "C15": ("E7", "exploration", "runtime monitoring: recording callbacks vs. expected calls computed from the statement",
-   "Every (prefix, key) pair over all 85 strings of length <= 3 over {a, b, 2-byte, 4-byte character}, alone and inside a companion set of 8 subscriptions with kept / dropped / forever handles, for all four write operations, locally and replicated through real handshakes incl. duplicate and stale deliveries; random sets of up to 8 prefixes.",
+   "Every (prefix, key) pair over all 85 strings of length <= 3 over {a, b, 2-byte, 4-byte character}, alone and inside a companion set of 8 subscriptions with kept / dropped / forever handles, for all four write operations, locally and replicated through real handshakes incl. duplicate and stale deliveries and replicas built by a gossip reset; every order of subscribe / drop / forever / write events of length <= 5; random sets of up to 8 prefixes.",
    "callbacks registered through the public subscribe_event", "DESIGN.md §5 C15"),
  "C17": ("E8", "exploration", "runtime monitoring: the real selection function over an exhaustive subset-structure enumeration with scripted generators",
    "Every multiset of membership masks for universes of 0..6 addresses (74,613 structures) x scripted generators returning extreme and mid values x seeded draws; each result is checked against all clauses (at most 3 distinct targets from the right pool, picks inside their sets, forced seed when no live peer, forced dead pick when dead > live, no panic).",
@@ -76,7 +76,7 @@ CHECKS.update({
    "Existing copies of six kinds (absent, empty, mid-reset, behind, ahead, garbage collected through the real dead-node GC) x consistent and arbitrary supplied states; no panic, no lower frontier, unchanged-or-replaced content, no re-creation of removed members, no liveness change; also interleaved with E1 gossip steps using other nodes' real copies.",
    "absent -> empty copy at (0,0) after a refused call counts as unchanged", "DESIGN.md §5 C18"),
  "C19": ("E10", "fault_enumeration", "runtime monitoring: scripted transport faults under the paused clock + real UDP on loopback",
-   "One real gossip server on a scripted Transport/Socket: all scripts of length <= 4 (quick) / 6 (thorough) over {send ok, send error, 2.5 s send, recv SYN, recv fatal error, recv panic} x every position of a shutdown request or user lock, plus random scripts to length 12; obligations in virtual time: rounds resume, liveness is evaluated, heartbeat rises, every SYN answered, termination reported, shutdown completes, user access returns within 1 ms; real UDP rounds with garbage / truncated / 65,507-byte datagrams and a closed-port seed.",
+   "One real gossip server on a scripted Transport/Socket: all scripts of length <= 4 (quick) / 6 (thorough) over {send ok, send error, 2.5 s send, recv SYN, recv fatal error, recv panic} x every position of a shutdown request, user lock, gossip command or gossip-then-shutdown, plus user lock probed everywhere while delayed sends drain, plus random scripts to length 12; obligations in virtual time: rounds resume, liveness is evaluated, heartbeat rises, every SYN answered, termination reported, shutdown completes, user access returns within 1 ms; real UDP rounds with garbage / truncated / empty / 65,507-byte datagrams, a closed-port seed and a seed of the other address family (failed sends), every datagram received from the server validated.",
    "virtual-time deadlines; UDP part: missing answer without termination is inconclusive", "DESIGN.md §5 C19"),
 })
 ENGINES.extend([
